@@ -13,7 +13,7 @@
   lemma): objects that are aliases of references (`type A = B`).
 -/
 import Cog.Sem.GoEqualsLaws
-namespace Cog.Sem
+namespace Cog.Sem.GoEq
 open Cog.IR Cog.Sem.GoVal
 
 def refTyOk (oty : Ty) (nullable : Bool) : Bool :=
@@ -643,4 +643,4 @@ theorem goDecode_wt (ss : Schemas) (hs : schemasOk ss = true) :
       exact ih _ j v (by simpa [posOk] using hp) h
     all_goals simp [posOk] at hp
 
-end Cog.Sem
+end Cog.Sem.GoEq
